@@ -8,37 +8,49 @@ def hitS : PPHit → Sexp
   | .pp t => list [atom "pp", s t]
   | .els t => list [atom "else", s t]
 
-/-- `post.rstrip().endswith('&')`: the continuation branch of the re-insertion callbacks is not modelled -/
-def endsAmp (l : Line) : Bool :=
-  match (l.reverse.dropWhile isWs) with
-  | '&' :: _ => true
-  | _ => false
-
 def ampCase (o : Out) : Bool :=
   (match o.info.convert with | some g => endsAmp g.post | none => false) ||
   (match o.info.newunit with | some g => endsAmp g.args2 | none => false)
+
+def lineResp (o : Out) : List Sexp :=
+  let i := o.info
+  [s o.full,
+   list [atom "ibm", ofBool i.ibm],
+   list (atom "strpp" :: i.strpp.map hitS),
+   list (atom "intpp" :: i.intpp.map hitS),
+   list [atom "convert", match i.convert with
+     | none => atom "none"
+     | some g => list [s g.ws, s g.pre, s g.convert, s g.post]],
+   list [atom "newunit", match i.newunit with
+     | none => atom "none"
+     | some g => list [s g.ws, s g.opn, s g.args1, (match g.delim with | some d => s d | none => atom "none"),
+                       s g.key, s g.val, s g.args2]],
+   list [atom "fypp", ofBool i.fypp]]
+
+/-- strip leading and trailing newlines (`str.strip('\n')`) -/
+def stripNl (l : Line) : Line := ((l.dropWhile (· == '\n')).reverse.dropWhile (· == '\n')).reverse
 
 def step : Sexp → Option Sexp
   | list [atom "line", str b, nl, _] => do
       let nl ← nl.toBool?
       let l := b.toList
       let o := sanitizeLine l nl
-      let i := o.info
-      pure (list [atom "ok", s o.full,
-        list [atom "ibm", ofBool i.ibm],
-        list (atom "strpp" :: i.strpp.map hitS),
-        list (atom "intpp" :: i.intpp.map hitS),
-        list [atom "convert", match i.convert with
-          | none => atom "none"
-          | some g => list [s g.ws, s g.pre, s g.convert, s g.post]],
-        list [atom "newunit", match i.newunit with
-          | none => atom "none"
-          | some g => list [s g.ws, s g.opn, s g.args1, (match g.delim with | some d => s d | none => atom "none"),
-                            s g.key, s g.val, s g.args2]],
-        list [atom "fypp", ofBool i.fypp],
+      pure (list (atom "ok" :: lineResp o ++ [
         list [atom "effective", if ampCase o then atom "amp" else s (effective o)],
         list [atom "known", ofBool (KnownTokInString l), ofBool (KnownTokInComment l),
-              ofBool (KnownOpenKeyInProt l), ofBool (KnownConvertFirst l nl), ofBool (KnownMacroInIdent l)]])
+              ofBool (KnownOpenKeyInProt l), ofBool (KnownConvertFirst l nl), ofBool (KnownMacroInIdent l)]]))
+  | list [atom "stmt", str t, _] =>
+      let lines := (t.splitOn "\n").map String.toList
+      let outs := lines.map fun l => sanitizeLine l true
+      if outs.any (fun o => !o.nl) then some (list [atom "error", atom "merged"]) else
+      match outs with
+      | [] => none
+      | o1 :: _ =>
+        let sRaw := stripNl (joinLines lines)
+        let sSan := stripNl (joinLines (outs.map (·.text)))
+        some (list [atom "ok", list (outs.map fun o => list (lineResp o)),
+          list [atom "effective", s (effectiveCont o1 sRaw), s (effectiveCont o1 sSan)],
+          list [atom "missing", ofBool (KnownContTailMissing o1 sRaw), ofBool (KnownContTailMissing o1 sSan)]])
   | list [atom "segs", str b] =>
       pure (list (atom "ok" :: (segments b.toList).map fun p =>
         list [s p.code, atom (match p.kind with | .none => "none" | .str => "str" | .comment => "comment"), s p.prot]))
